@@ -132,7 +132,38 @@ def run(tier, seed):
                 what=f"get_width's construction = largest set of pairwise walk-incomparable non-ignored edges, {len(shapes)} shapes")
     import shutil
     shutil.rmtree(sc, ignore_errors=True)
-    recs = P.drive(insts + kcov)
+    # graphs too large for the Cover adversary (12-15 nodes, one big SCC entered by a single edge that a covering walk
+    # crosses p*q times): decided by Width!ConstructedWidth (Trace_Width.tla)
+    big = []
+    for p_, q_, x_ in ((3, 3, False), (4, 4, False), (3, 5, False), (4, 4, True)) if tier == "quick" else \
+            ((3, 3, False), (4, 4, False), (3, 5, False), (4, 4, True), (5, 4, False), (3, 4, True), (5, 5, False)):
+        u = C.bipartite_scc(p_, q_, x_)
+        igns = [[], [list(rng.choice(u["edges"]))]]
+        for ign in igns:
+            r = cover_rec(u, "MinPathCoverCycles", ign=ign)
+            r["opt"] = {"optimize_with_safe_sequences": False} if rng.random() < 0.5 else {}
+            big.append(r)
+            for k in (1, 2):
+                kr = cover_rec(u, "kPathCoverCycles", ign=ign)
+                kr["k"] = k
+                big.append(kr)
+    C.with_ids(big, start=900000)
+    recs = P.drive(insts + kcov + big, limit=240)
+    brecs = recs[len(insts) + len(kcov):]
+    recs = recs[:len(insts) + len(kcov)]
+    slim = [{"id": r["id"], "cls": r["cls"], "nodes": r["nodes"], "edges": r["edges"], "ign": r["ign"], "k": r["k"],
+             "solved": r["solved"], "count": len(r["routes"])} for r in brecs if r["ctor_exc"] == "none" and not r.get("timeout")]
+    if slim:
+        verd = vlib.validate_records("Trace_Width", "Trace_Width.cfg", slim, PROP, res, nshards=min(16, len(slim)))
+        byb = {r["id"]: r for r in brecs}
+        for rid, (app, fails) in verd.items():
+            res.traces += 1
+            res.nontrivial.add(rid)
+            c = "kCoverSolvedIffKAtLeastWidth" if byb[rid]["cls"] == "kPathCoverCycles" else "MinCoverUsesWidthManyWalks"
+            res.clause("Big." + c, 1, 1 if fails else 0)
+            res.count_class("large_scc_instances")
+            for f in fails:
+                res.violation("Big." + f, {k: byb[rid].get(k) for k in ("id", "cls", "nodes", "edges", "ign", "k", "solved", "routes", "opt")})
     main = recs[:len(insts)]
     krecs = recs[len(insts):]
     res.evaluations = len(recs) + len(subs)
